@@ -987,6 +987,9 @@ class C11(Check):
         "row order of joins over two or more relations is compared as a multiset when the join order depends on "
         "the iteration order of a Python set (model flag ordered=false); the oracle compares multisets for every "
         "multi-relation query and exact order for single-relation queries",
+        "for every grammar case the driver also checks that the generator's words are spellings (Model.spells, "
+        "seqOKW) of the tokens the lexer model finds, i.e. that the proved lexer theorem lex_spelled covers the "
+        "texts the generator writes (all operator/connective spellings, both quote styles, the 21 date spellings)",
         "':today'/'now' literals are only checked to parse to a datetime",
         "sequences of 3-8 queries run against ONE tsdb.Database object (30 %: one itsdb.TestSuite object); each "
         "answer must equal the nested-loop answer of that query alone and the answer of a fresh Database, and "
@@ -1113,6 +1116,49 @@ class C11(Check):
                            (["parse.i-id", "item.i-id", "i-input"], ["item", "parse"]), (["mrs", "i-id"], ["result"]),
                            (["i-id", "i-id"], []), (["run-id"], []), (["run-id"], ["parse"]), (["r-comment", "mrs"], [])):
             yield self.make_case(rng, sch, fixed, {"proj": proj, "rels": rels, "wheres": []}, plain=True)
+        # (a) a same-named NON-key column in two relations that are linked only through a third one
+        sch_tag = base_schema()
+        for rel in sch_tag:
+            if rel[0] in ("item", "result"):
+                rel[1].append(["tag", "string", False])
+        d_tag = {"item": [["1", "dog", "3", None, "x"], ["2", "cat", "1", None, "y"], ["3", "o", None, None, None]],
+                 "run": [["1", "r", None]],
+                 "parse": [["10", "1", "1", "2", None], ["11", "1", "2", "1", None], ["12", "1", "3", "0", None],
+                           ["13", "1", "1", "1", None]],
+                 "result": [["10", "0", "a", "y"], ["11", "0", "b", "y"], ["12", "0", "c", None], ["13", "1", "d", "x"],
+                            ["13", "2", "e", "z"]]}
+        for proj, rels, wh in ((["item.tag", "result.tag"], [], []), (["tag", "mrs"], [], []), (["tag"], ["result"], []),
+                               (["i-id", "result.tag"], [], []), (["*"], ["item", "result"], []),
+                               (["*"], ["result", "item"], []), (["tag", "result.tag", "parse-id"], ["item"], []),
+                               (["item.tag"], [], [["leaf", "==", "result.tag", {"s": "y"}]]),
+                               (["mrs"], [], [["leaf", "!=", "item.tag", {"s": "x"}]]),
+                               (["i-id", "mrs"], [], [["not", ["leaf", "==", "tag", {"s": "x"}]]])):
+            yield self.make_case(rng, sch_tag, d_tag, {"proj": proj, "rels": rels, "wheres": wh}, plain=True)
+        # (b) keys 0, -1 and empty (and their other spellings) in joins of two and three relations
+        d_key = {"item": [["0", "zero", "1", None], ["-1", "minus", "2", None], [None, "none", "3", None],
+                          ["1", "one", None, None], ["00", "zero2", "4", None]],
+                 "run": [["0", "r0", None], ["-1", "r-1", None], [None, "rnone", None]],
+                 "parse": [["0", "0", "0", "1", None], ["-1", "-1", "-1", "2", None], [None, None, None, "3", None],
+                           ["1", "0", "-01", "4", None], ["2", None, "+0", "5", None], ["3", "-1", None, "6", None]],
+                 "result": [["0", "0", "m0"], ["-1", "0", "m-1"], [None, "0", "mnone"], ["00", "1", "m00"],
+                            ["1", "0", "m1"]]}
+        for proj, rels, wh in ((["i-id", "parse-id"], [], []), (["i-input", "readings"], [], []),
+                               (["i-input", "mrs"], [], []), (["r-comment", "mrs"], [], []),
+                               (["i-input", "r-comment"], [], []), (["*"], ["item", "parse"], []),
+                               (["*"], ["parse", "result"], []), (["*"], ["item", "parse", "result"], []),
+                               (["i-input", "mrs"], [], [["leaf", "==", "item.i-id", {"i": 0}]]),
+                               (["i-input", "mrs"], [], [["leaf", "<", "parse.i-id", {"i": 0}]]),
+                               (["parse-id"], ["result"], [["leaf", ">=", "parse-id", {"i": -1}]]),
+                               (["i-input", "r-comment", "mrs"], [], [])):
+            yield self.make_case(rng, sch, d_key, {"proj": proj, "rels": rels, "wheres": wh}, plain=True)
+        # (c) not / ! directly over every comparison, on rows whose compared field is empty
+        for col, lit in (("i-length", {"i": 2}), ("i-date", {"d": "2020-01-15"}), ("i-input", {"s": "dog"})):
+            for op in EQ_OPS + ([] if "s" in lit else ORD_OPS) + (RE_OPS if "s" in lit else []):
+                t = ["not", ["leaf", op, col, lit]]
+                for plain in (True, False):
+                    yield self.make_case(rng, sch, fixed, {"proj": [col, "i-id"], "rels": [], "wheres": [t]}, plain=plain)
+                yield self.make_case(rng, sch, fixed, {"proj": [col, "i-id"], "rels": [],
+                                                       "wheres": [["and", [t, ["leaf", ">", "i-id", {"i": 0}]]]]}, plain=False)
         # one database object, consecutive queries that resolve `i-id` under different from clauses
         sess = {"item": [["10", "a", "1", None], ["20", "b", "2", None], ["30", "c", "3", None]],
                 "run": [["1", "r", None]],
@@ -1219,7 +1265,8 @@ class C11(Check):
             text = p.text()
             if not date_follow_hazard(p.words) or plain:
                 break
-        return {"kind": "select", "schema": sch, "data": data, "q": q, "text": cps(text), "toks": p.toks}
+        return {"kind": "select", "schema": sch, "data": data, "q": q, "text": cps(text), "toks": p.toks,
+                "words": [cps(w) for w in p.words]}
 
     def search_cases(self, rng, tier, n, seeds):
         return self.cases(rng, tier, n)
@@ -1390,7 +1437,10 @@ class C11(Check):
         for p in sorted(pats):
             for s in sorted(strings):
                 rx.append([cps(p), cps(s), re.search(p, s) is not None])
-        return {"op": "query", "toks": case["toks"] + [["DOT"]], "db": db, "rx": rx}
+        r = {"op": "query", "toks": case["toks"] + [["DOT"]], "db": db, "rx": rx}
+        if "words" in case and all(x < 128 for w in case["words"] for x in w):
+            r["words"] = case["words"]
+        return r
 
     def model_expected(self, case, res):
         return res
@@ -1419,6 +1469,9 @@ class C11(Check):
             return {"what": "parse", "impl": expected["parse"], "model": answer.get("parse")}
         if case["kind"] != "select":
             return None
+        if "words" in case and answer.get("spelled") is False:
+            return {"what": "the generator's words are not spellings (spells/seqOKW) of the lexed tokens",
+                    "text": uncps(case["text"])}
         if "err" in expected["parse"]:
             return None
         er, mr = expected.get("rows"), answer.get("rows")
